@@ -114,6 +114,7 @@ def specRun (rc : Bool) (split : Option (List Bytes)) (env osenv : Env) (code : 
 def step (_ : Unit) (op impl : String) : Unit × DrvOut :=
   let rc := MtxVerif.Gen.C21.waitReturnsExitCode
   match words op with
+  | ["reset"] => ((), { model := "ok" })
   | ["exp", w, e, o] =>
     match Hex.decode w, parseEnv e, parseEnv o with
     | some w, some env, some osenv =>
